@@ -1,5 +1,5 @@
 (* C16 property theorems: statements + `exact lemma` only. *)
-From CJ Require Import Common.Base C16.Model C16.ProofsRead C16.ProofsHb C16.ProofsFc C16.ProofsReg C16.ProofsMat.
+From CJ Require Import Common.Base C16.Model C16.Concrete C16.ProofsRead C16.ProofsHb C16.ProofsFc C16.ProofsReg C16.ProofsMat.
 
 (* ------------------------------------------------------------------ *)
 (* (i) SCTPConn.Read                                                   *)
@@ -257,3 +257,23 @@ Theorem C16_derived_key_valid :
     1 <= cm_d c < p256_order /\ cm_serial c < serial_max /\ r = skipn 65 st.
 Proof. exact cert_of_valid. Qed.
 Print Assumptions C16_derived_key_valid.
+
+(* the same statements for the concrete derivation (SHA-256 / HMAC / HKDF of coq/C14, the
+   functions that are compared with seedtocert.go from the secret alone on every run) *)
+Theorem C16_concrete_same_secret_same_material :
+  forall s1 s2, s1 = s2 -> material_conc s1 = material_conc s2.
+Proof. exact concrete_same_secret. Qed.
+Print Assumptions C16_concrete_same_secret_same_material.
+
+Theorem C16_concrete_different_secret_different_route :
+  hkdf_hello_injective hkdf_conc ->
+  forall s1 s2, s1 <> s2 -> hello_random_conc s1 <> hello_random_conc s2.
+Proof. exact concrete_different_route. Qed.
+Print Assumptions C16_concrete_different_secret_different_route.
+
+Theorem C16_concrete_key_valid :
+  forall s c1 c2, certs_from_seed_conc s = Some (c1, c2) ->
+    (1 <= cm_d c1 < p256_order /\ cm_serial c1 < serial_max) /\
+    (1 <= cm_d c2 < p256_order /\ cm_serial c2 < serial_max).
+Proof. exact concrete_key_valid. Qed.
+Print Assumptions C16_concrete_key_valid.
